@@ -134,6 +134,19 @@ static int describe(void)
     for (uint32_t i = 0; i < rules->num_rules; i++) putchar(yr_bitmask_is_set(rules->no_required_strings, i) ? '1' : '0');
     printf(" single=");
     for (uint32_t i = 0; i < rules->num_strings; i++) putchar(STRING_IS_SINGLE_MATCH(&rules->strings_table[i]) ? '1' : '0');
+    printf(" chain=");
+    {
+      int any = 0;
+      for (uint32_t i = 0; i < rules->num_strings; i++)
+      {
+        YR_STRING* st = &rules->strings_table[i];
+        if (!STRING_IS_CHAIN_PART(st)) continue;
+        printf("%s%u:%d:%d:%d:%d", any ? "," : "", i, st->chained_to ? (int) st->chained_to->idx : -1, st->chain_gap_min, st->chain_gap_max,
+               STRING_IS_CHAIN_TAIL(st) ? 1 : 0);
+        any = 1;
+      }
+      if (!any) printf("-");
+    }
     printf(" fixed=");
     for (uint32_t i = 0; i < rules->num_strings; i++)
     {
